@@ -63,14 +63,39 @@ func (p *payloads) spice() string {
 	return jsonSpice[p.rng.Intn(len(jsonSpice))]
 }
 
-// get returns payload id (created on first use; stable afterwards).
-func (p *payloads) get(id int) []byte {
+// get returns payload id of the similar class (created on first use; stable afterwards).
+func (p *payloads) get(id int) []byte { return p.getKind(id, "sim") }
+
+// getKind returns payload id, created on first use with the given class: "sim" = shares long substrings with the
+// other similar payloads (fossil patches are smaller than the payload), "unrel" = short and unrelated (no patch to it
+// or from it is smaller than the target: the server has to fall back to the full data).
+func (p *payloads) getKind(id int, kind string) []byte {
 	p.mu.Lock()
 	defer p.mu.Unlock()
 	if b, ok := p.byID[id]; ok {
 		return b
 	}
 	var b []byte
+	if kind == "unrel" {
+		const alnum = "ABCDEFGHIJKLMNOPQRSTUVWXYZ0123456789"
+		r := make([]byte, 16+p.rng.Intn(6))
+		for i := range r {
+			if p.binary {
+				r[i] = byte(p.rng.Intn(256))
+			} else {
+				r[i] = alnum[p.rng.Intn(len(alnum))]
+			}
+		}
+		if p.binary {
+			var hdr [4]byte
+			binary.BigEndian.PutUint32(hdr[:], uint32(id))
+			b = append(hdr[:], r...)
+		} else {
+			b = []byte(fmt.Sprintf(`{"id":%d,"R":"%s"}`, id, r))
+		}
+		p.byID[id] = b
+		return b
+	}
 	if p.binary {
 		var buf bytes.Buffer
 		var hdr [4]byte
